@@ -28,6 +28,7 @@ import (
 
 	"verif/internal/ev"
 	"verif/internal/mon"
+	"verif/internal/sched"
 )
 
 const enumBase = 1_000_000_000 // case indices >= enumBase are enumerated schedules
@@ -195,9 +196,20 @@ func workerMain(run *ev.Run, fams []enumFamily, nEnum, nRandom int, spec string)
 		os.Exit(2)
 	}
 	st := newStats()
+	// the spans the key set opens (VerifySignature, verifySignatureRemote, keysFromRemote, updateKeys, fetchRemoteKeys)
+	// are yield points: three cases in four run with every 2nd / 3rd / 5th point handing the processor over, which
+	// moves the switches between callers and the download goroutine to places the scheduler rarely picks by itself
+	sched.Install()
 	for p := k; p < nEnum+nRandom; p += n {
+		j := []int{0, 2, 3, 5}[(p/n)%4]
+		sched.Jitter(j)
+		if j > 0 {
+			st.JitterCases++
+		}
 		doCase(run, st, fams, caseAt(p, nEnum))
 	}
+	sched.Jitter(0)
+	st.SchedPoints = sched.Points()
 	st.Dumps, st.DumpNs = dumps, dumpNs
 	b, err := json.Marshal(st)
 	if err == nil {
@@ -315,6 +327,8 @@ func main() {
 	run.Extra("random_rounds", nRandom)
 	run.Extra("rounds_executed", total.Rounds)
 	run.Extra("worker_processes", nw)
+	run.Extra("yield_points_passed_in_library_spans", total.SchedPoints)
+	run.Extra("cases_run_with_yield_jitter", total.JitterCases)
 	run.Extra("goroutine_dumps", total.Dumps)
 	run.Extra("goroutine_dump_seconds_summed_over_workers", float64(total.DumpNs)/1e9)
 	run.Extra("porcupine_operations_checked", total.PorcOps)
